@@ -183,6 +183,9 @@ Lemma band_column b ru costs :
   (forall t1, lev (rev s) (t1 ++ b :: ru) <= e -> sm2 <= e).
 Proof.
 intros [Hlen Hcells] j stop costs1 prev sm1 start costs2 sm2 Hsel Hrun.
+assert (Hj : j = S (length ru)) by reflexivity.
+assert (Hstopdef : stop = Nat.min (j + e + 1) (m + 1)) by reflexivity.
+clearbody stop. clearbody j.
 assert (H0 : cell_ok ru 0 (get costs 0)) by (apply Hcells; lia).
 destruct (Nat.leb_spec j e) as [Hje|Hje].
 - (* j <= e: costs[0] is advanced *)
@@ -234,27 +237,29 @@ destruct (Nat.leb_spec j e) as [Hje|Hje].
       destruct (D_column_exists t1 (b :: ru)) as [i [Hi HD]].
       destruct (D_ge_diff i (b :: ru) Hi) as [Hd1 Hd2]. cbn [length] in Hd1, Hd2. lia.
   + assert (Hsm : j - e <= m) by lia.
-    pose proof (band_inner_spec b ru (stop - (j - e)) (j - e) _ _ _ _ _ Hrun) as Sp.
     assert (Hpc : cell_ok ru (j - e - 1) (get costs (j - e - 1))) by (apply Hcells; lia).
-    destruct Sp as [S1 [S2 [S3 [S4 S5]]]]; try lia.
-    * exact Hlen.
-    * intros k Hk Hkm. apply Hcells; lia.
-    * intros _. exact Hpc.
-    * intros _. destruct Hpc as [_ Hp]. specialize (Hp ltac:(lia) ltac:(lia)). destruct Hp as [Hp1 _].
+    assert (P6 : forall k, j - e <= k -> k <= m -> cell_ok ru k (get costs k))
+      by (intros k Hk Hkm; apply Hcells; lia).
+    assert (P7 : j - e <= m -> cell_ok ru (j - e - 1) (get costs (j - e - 1))) by (intros _; exact Hpc).
+    assert (P8 : j - e <= m -> D s (j - e) (b :: ru) <= get costs (j - e - 1) + 1 /\
+                 (D s (j - e - 1) (b :: ru) < e -> get costs (j - e - 1) = D s (j - e - 1) (b :: ru))).
+    { intros _. destruct Hpc as [_ Hp]. specialize (Hp ltac:(lia) ltac:(lia)). destruct Hp as [Hp1 _].
       split.
-      -- pose proof (D_diag_le (j - e - 1) b ru) as Hd. replace (S (j - e - 1)) with (j - e) in Hd by lia. lia.
-      -- intro Hlt. destruct (D_ge_diff (j - e - 1) (b :: ru) ltac:(lia)) as [_ Hd2]. cbn [length] in Hd2. lia.
-    * split.
-      -- split; [exact S1|]. intros i Hi. unfold cell_ok. cbn [length].
-         split.
-         ++ intro Hab. rewrite S3 by lia. destruct (Hcells i Hi) as [Ha _]. apply Ha. lia.
-         ++ intros Hb1 Hb2.
-            destruct (S4 i ltac:(lia) ltac:(lia)) as [Hg _]. exact Hg.
-      -- intros t1 Ht.
-         destruct (D_column_exists t1 (b :: ru)) as [i [Hi HD]].
-         destruct (D_ge_diff i (b :: ru) Hi) as [Hd1 Hd2]. cbn [length] in Hd1, Hd2.
-         destruct (S4 i ltac:(lia) ltac:(lia)) as [[Hg1 Hg2] Hsm2].
-         specialize (Hg2 ltac:(lia)). lia.
+      - pose proof (D_diag_le (j - e - 1) b ru) as Hd. replace (S (j - e - 1)) with (j - e) in Hd by lia. lia.
+      - intro Hlt. destruct (D_ge_diff (j - e - 1) (b :: ru) ltac:(lia)) as [_ Hd2]. cbn [length] in Hd2. lia. }
+    destruct (band_inner_spec b ru (stop - (j - e)) (j - e) _ _ _ _ _ Hrun
+                ltac:(lia) ltac:(lia) ltac:(lia) ltac:(lia) Hlen P6 P7 P8) as [S1 [S2 [S3 [S4 S5]]]].
+    split.
+    * split; [exact S1|]. intros i Hi. unfold cell_ok. cbn [length].
+      split.
+      -- intro Hab. rewrite S3 by lia. destruct (Hcells i Hi) as [Ha _]. apply Ha. lia.
+      -- intros Hb1 Hb2.
+         destruct (S4 i ltac:(lia) ltac:(lia)) as [Hg _]. exact Hg.
+    * intros t1 Ht.
+      destruct (D_column_exists t1 (b :: ru)) as [i [Hi HD]].
+      destruct (D_ge_diff i (b :: ru) Hi) as [Hd1 Hd2]. cbn [length] in Hd1, Hd2.
+      destruct (S4 i ltac:(lia) ltac:(lia)) as [[Hg1 Hg2] Hsm2].
+      specialize (Hg2 ltac:(lia)). lia.
 Qed.
 
 (* all columns *)
